@@ -246,6 +246,21 @@ func (s *Solver) Check(extra *sym.Term) (Result, map[string]uint64) {
 	return res, model
 }
 
+// CheckLong repeats a query with factor times the normal time limit (z3 kinds; the others behave like Check). It is the
+// last resort before a path is given up as undecided.
+func (s *Solver) CheckLong(extra *sym.Term, factor int) (Result, map[string]uint64) {
+	if !strings.HasPrefix(s.kind, "z3") {
+		return s.Check(extra)
+	}
+	old := s.timeout
+	s.timeout = old * factor
+	s.send(fmt.Sprintf("(set-option :timeout %d)\n", s.timeout))
+	r, m := s.Check(extra)
+	s.timeout = old
+	s.send(fmt.Sprintf("(set-option :timeout %d)\n", s.timeout))
+	return r, m
+}
+
 // rawLine reads one output line, killing a solver that overruns its own time limit by far.
 func (s *Solver) rawLine() (string, bool) {
 	limit := time.Duration(s.timeout)*time.Millisecond*2 + 5*time.Second
